@@ -90,7 +90,17 @@ func watchForwardingRule(c *Ctx, rule string) {
 					v = m.traceValue(v)
 					switch y := v.(type) {
 					case *ssa.Phi:
-						for _, e := range y.Edges {
+						for i, e := range y.Edges {
+							// a value carried over from the previous iteration: an event that produces no
+							// entry of its own (the client's nil marker) forwards the previous one again
+							if pred := y.Block().Preds[i]; inLoop(y.Block()) && (pred == y.Block() || y.Block().Dominates(pred)) { // a back edge
+								if ep, isPhi := e.(*ssa.Phi); !isPhi || ep != y {
+									if _, isC := e.(*ssa.Const); !isC {
+										stale = append(stale, "entry variable at "+c.posOf(y)+" keeps its value across iterations of the receive loop")
+										continue
+									}
+								}
+							}
 							walk(e, depth+1)
 						}
 					case *ssa.MakeInterface:
